@@ -115,6 +115,13 @@ func (ex *Exec) intrinsic(g *G, f *Frame, fn *ssa.Function, args []Value, call *
 	case "math.IsNaN", "math.IsInf":
 		// real mode has no NaN / Inf except the unspecified x/0 terms: those may be either
 		f := args[0].(Flt)
+		if f.Sp != spFin {
+			if n == "math.IsNaN" {
+				return Bool{C: f.Sp == spNaN}, false
+			}
+			sign := ex.concInt(args[1], "math.IsInf sign")
+			return Bool{C: f.Sp != spNaN && (sign == 0 || (sign > 0) == (f.Sp == spPosInf))}, false
+		}
 		if f.T != nil && f.T.poison {
 			ex.fresh++
 			return Bool{T: ex.TS.Var(fmt.Sprintf("isnan!%d", ex.fresh), SBool)}, false
@@ -322,6 +329,9 @@ func (ex *Exec) sprintf(args []Value) string {
 			}
 			return fmt.Sprint(x.C)
 		case Flt:
+			if x.Sp != spFin {
+				return spName(x.Sp)
+			}
 			if x.T != nil {
 				return "<sym>"
 			}
@@ -714,6 +724,12 @@ func (ex *Exec) vrt(g *G, f *Frame, name string, fn *ssa.Function, args []Value)
 		if ex.Concrete != nil {
 			ex.Obs = append(ex.Obs, Observation{label, ex.obsText(a)})
 		}
+		if hasSpecial(a) || hasSpecial(b) {
+			// a value at a position whose defining denominator is zero: exempt
+			ex.Info["assertion_over_zero_denominator"] = label
+			ex.Asserts = append(ex.Asserts, AssertRec{Label: label, Known: known, Result: "exempt"})
+			return nil, false
+		}
 		ex.assertTerm(label, ex.eqTerm(a, b), known)
 		return nil, false
 	case "PossibleIfAt":
@@ -929,6 +945,9 @@ func (ex *Exec) vrt(g *G, f *Frame, name string, fn *ssa.Function, args []Value)
 func (ex *Exec) obsText(v Value) string {
 	switch x := v.(type) {
 	case Flt:
+		if x.Sp != spFin {
+			return spName(x.Sp)
+		}
 		if x.T != nil {
 			return "?"
 		}
